@@ -160,9 +160,12 @@ class Builtins(BuiltinCalls, ContainerCalls):
                 if isinstance(o, ExtInst):
                     return ClassV(ext=o.qual)
         if isinstance(v, Num):
+            tp = frozenset(self.I.type_test_tags[t] for t in v.prov if t in self.I.type_test_tags)
+            if tp:
+                self.I.event("type-of-tagged", None, val=v)
             if len(v.kinds) == 1:
-                return ClassV(ext="builtin." + next(iter(v.kinds)))
-            return ClassV(ext="builtin.?number")
+                return ClassV(ext="builtin." + next(iter(v.kinds)), prov=tp)
+            return ClassV(ext="builtin.?number", prov=tp)
         if isinstance(v, Bool):
             return ClassV(ext="builtin.bool")
         if isinstance(v, Str):
@@ -260,7 +263,7 @@ class Builtins(BuiltinCalls, ContainerCalls):
 
     def contains(self, state: State, item: Val, container: Val, negate: bool, node) -> Val:
         tv = None
-        prov = getattr(item, "prov", frozenset())
+        prov = _deep_prov(item)
         if isinstance(container, Ptr):
             d = self.I.deref(state, container)
             if d is not None and isinstance(d[0], DictObj):
@@ -358,6 +361,9 @@ class Builtins(BuiltinCalls, ContainerCalls):
                 v = join_val(v, x)
         v = subst_val(v, env) if env else v
         self.I.hook("dict-get", node, p, key, v)
+        kp = _deep_prov(key)
+        if kp and isinstance(v, (Num, Bool, Str)):
+            v = replace(v, prov=v.prov | kp)  # which entry is read depends on the key
         if not strict:
             v = join_val(v, default if default is not None else NoneV())
         return v
@@ -496,6 +502,26 @@ class Builtins(BuiltinCalls, ContainerCalls):
                 c = Interval.point(float(a[1]))
                 learn(b, rng.sub(c) if k == "add" else c.sub(rng))
             return
+
+
+def _deep_prov(v, depth: int = 0) -> frozenset:
+    if depth > 4:
+        return frozenset()
+    if isinstance(v, (Num, Bool, Str, ClassV)):
+        return v.prov
+    if isinstance(v, TupleV):
+        out = frozenset()
+        for x in v.items:
+            out |= _deep_prov(x, depth + 1)
+        return out
+    if isinstance(v, Seq):
+        return _deep_prov(v.elem, depth + 1)
+    if isinstance(v, Union):
+        out = frozenset()
+        for x in v.opts:
+            out |= _deep_prov(x, depth + 1)
+        return out
+    return frozenset()
 
 
 def _ckey(v):
